@@ -186,6 +186,16 @@ def cycle(run, doc, res, case):
     if any(m is None for m in m1):
         return
     rng = getattr(run, "rng", None) or __import__("random").Random(0)
+    narrow = case["narrow"] if "narrow" in case else (rng.choice(["float32", "float32", "float16"]) if rng.random() < 0.15 else None)
+    if narrow:
+        # every curve (the index too) held in a narrow float type: the samples the writer sees are numpy scalars that are not Python floats
+        import warnings
+        with warnings.catch_warnings():
+            warnings.simplefilter("ignore")
+            for c in las.curves:
+                c.data = c.data.astype(narrow)
+        m1 = mask(las)
+        case = dict(case, narrow=narrow)
     if case.get("edit_in_place") or (not case.get("write_options") and rng.random() < 0.3 and len(m1) > 1 and m1[0]):
         # the object is written once (every array has been looked at), THEN samples are set to NaN in place, then it is written
         # again: the second output must carry the NULL at exactly the NaN positions the object holds now
@@ -226,6 +236,10 @@ def cycle(run, doc, res, case):
         return
     m2 = mask(las2)
     run.dist["cycle"] += 1
+    # "every NaN is emitted as the current NULL value": no NaN may go out spelled 'nan' (it would read back as NaN and hide in the mask)
+    body = s.getvalue().split("\n~A", 1)[-1].split("\n", 1)[-1] if "\n~A" in s.getvalue() else ""
+    if any(t.lower() in ("nan", "-nan", "+nan") for t in body.split()):
+        run.fail("cycle-nan-text", case, {"written": s.getvalue()[-400:]})
     if m1 != m2:
         run.fail("cycle-mask", case, {"before": m1, "after": m2, "written": s.getvalue()[-400:]})
 
